@@ -186,6 +186,24 @@ def run_one(prop, tier, root, replay=None, write_ev=True, quiet=False, selftest_
             return 2
         L.findings[:] = keep
 
+    # Trust region: a finding of a shape-matching rule inside a function that has been rewritten beyond recognition (against the
+    # skeleton recorded for it on the pinned tree) is "no verdict"; form-independent rules are exempt (sa/drift.py)
+    try:
+        from sa.drift import outside_trust_region
+
+        drifted = outside_trust_region(repo, L.findings)
+    except Exception:
+        drifted = []
+    if drifted:
+        gone = [x for x, *_ in drifted]
+        keep = [f for f in L.findings if f not in gone]
+        for f, fn_short, dr, ed in drifted:
+            print(f"note: {prop}.{f.rule} at {f.construct} not counted: {fn_short} has been rewritten (skeleton drift {dr:.2f}, {ed} statements differ from the pinned tree) and {prop}.{f.rule} matches the shape it was confirmed on")
+        if not keep:
+            print(f"ANALYSIS-ERROR property={prop} every refuted obligation comes from a shape-matching rule applied to a function rewritten beyond its trust region ({', '.join(sorted({s_ for _, s_, _, _ in drifted}))})")
+            return 2
+        L.findings[:] = keep
+
     known = load_known()
     unlisted, listed = [], []
     for f in L.findings:
